@@ -42,6 +42,9 @@ func (e *Engine) clock() TimeV {
 			e.pendingSleep = ""
 		}
 	}
+	if e.clockBudget != "" { // vf.ShortScenario: every later reading stays within the stated budget of the first one
+		e.S.Send(fmt.Sprintf("(assert (<= %s %s))", t, e.clockBudget))
+	}
 	e.lastClockSym = t
 	e.Clock = append(e.Clock, t)
 	return TimeV{t}
@@ -151,6 +154,25 @@ func (e *Engine) intrinsic3(name string, args []any) (any, bool) {
 		return SymStr{"(ite " + boolE(args[0]) + " " + strE(args[1]) + " " + strE(args[2]) + ")"}, true
 	case "IfBytes":
 		return BytesV{E: "(ite " + boolE(args[0]) + " " + bytesE(args[1]) + " " + bytesE(args[2]) + ")"}, true
+	case "ShortScenario": // clock assumption: all further clock readings are at most d after base
+		e.clockBudget = "(+ " + args[0].(TimeV).E + " " + intE(args[1]) + ")"
+		return nil, true
+	case "FillRandom": // FillRandom(p, n): n fresh random bytes followed by zeroes, written into the buffer p
+		buf := args[0].(BytesV)
+		if buf.Obj == nil {
+			panic("FillRandom on a byte slice without identity")
+		}
+		ln := "(str.len " + bytesE(buf) + ")"
+		sym := e.freshSym("String", "rand")
+		n := intE(args[1])
+		e.S.Send(fmt.Sprintf("(assert (= (str.len %s) %s))", sym, n))
+		for _, prev := range e.randSyms {
+			e.S.Send(fmt.Sprintf("(assert (or (= %s \"\") (not (= %s %s))))", sym, sym, prev))
+		}
+		e.randSyms = append(e.randSyms, sym)
+		zeros := smtStr(strings.Repeat("\x00", 64))
+		*buf.Obj = fmt.Sprintf("(str.++ %s (str.substr %s 0 (- %s %s)))", sym, zeros, ln, n)
+		return nil, true
 	case "NonCanonical": // a different byte string that decodes to the same message (natively: the encoding twice, which protobuf merges)
 		b := args[0].(BytesV)
 		sym, ok := e.resolve(bytesE(b), keysOf(msgOf))
